@@ -12,6 +12,7 @@ import (
 	"path/filepath"
 	"sort"
 	"strings"
+	"sync"
 	"sync/atomic"
 	"testing"
 	"time"
@@ -42,8 +43,16 @@ type verifSetup struct {
 type verifEvent struct {
 	W []json.RawMessage   `json:"w,omitempty"` // [id, len, "stamp"]
 	B [][]json.RawMessage `json:"b,omitempty"` // burst: records submitted while the worker is parked
+	C *verifConc          `json:"c,omitempty"` // concurrent burst through the public logx functions
 	R []string            `json:"r,omitempty"` // restart: [rot0, now0, boundary date]: Close, then a new logger on the same file
 	D *string           `json:"d,omitempty"` // boundary date "2006-01-02" of the released clean-up
+}
+
+// verifConc: every inner list is logged by its own goroutine ([id, payload length, function]), all
+// started together while the writer goroutine is parked; stamps are consumed in order of arrival.
+type verifConc struct {
+	Gor    [][][]json.RawMessage `json:"gor"`
+	Stamps []string              `json:"stamps"`
 }
 
 type verifCase struct {
@@ -74,11 +83,15 @@ type verifFront struct {
 // verifTap sits where newFileWriter puts the RotateLogger; it remembers the bytes of every record at
 // the moment the front-end hands them over and forwards the very same slice.
 type verifTap struct {
+	mu       sync.Mutex
 	l        *RotateLogger
 	accepted []string
 }
 
+// Write keeps the order of arrival equal to the order of queueing when several goroutines log at once.
 func (t *verifTap) Write(p []byte) (int, error) {
+	t.mu.Lock()
+	defer t.mu.Unlock()
 	t.accepted = append(t.accepted, string(p))
 	return t.l.Write(p)
 }
@@ -100,22 +113,70 @@ func verifSeedLine(id, n int) string {
 	return s + "\n"
 }
 
-// verifEncodes reports whether line is the front-end's encoding of content (the Spec of the front-end).
+var verifLevels = []string{levelInfo, levelError, levelSlow, levelStat}
+
+// verifEncodes reports whether line is the front-end's encoding of content (the Spec of the front-end):
+// one line, the content field exact, a known level, a timestamp, and at most a caller field besides.
 func verifEncodes(enc, line, content string) bool {
 	if !strings.HasSuffix(line, "\n") || strings.Count(line, "\n") != 1 {
 		return false
 	}
+	known := func(level string) bool {
+		for _, l := range verifLevels {
+			if strings.Contains(level, l) {
+				return true
+			}
+		}
+		return false
+	}
 	if enc == "plain" {
 		f := strings.Split(strings.TrimSuffix(line, "\n"), string(rune(plainEncodingSep)))
-		return len(f) == 3 && f[2] == content && strings.Contains(f[1], levelInfo)
+		if len(f) < 3 || len(f) > 4 || f[2] != content || !known(f[1]) || len(f[0]) != len(timeFormat)-5 {
+			return false
+		}
+		return len(f) == 3 || strings.HasPrefix(f[3], callerKey+"=")
 	}
 	var m map[string]any
 	if json.Unmarshal([]byte(line), &m) != nil {
 		return false
 	}
+	lvl, _ := m[levelKey].(string)
 	_, hasTs := m[timestampKey]
-	return hasTs && m[contentKey] == content && m[levelKey] == levelInfo && len(m) == 3
+	_, hasCaller := m[callerKey]
+	return hasTs && m[contentKey] == content && known(lvl) && lvl != "" && (len(m) == 3 || (len(m) == 4 && hasCaller))
 }
+
+// verifIdentify finds the record a line encodes: the content field must be exactly verifContent(id, n)
+// for some id, n and the line a well-formed encoding of it; -1 otherwise.
+func verifIdentify(enc, line string) int {
+	var content string
+	if enc == "plain" {
+		f := strings.Split(strings.TrimSuffix(line, "\n"), string(rune(plainEncodingSep)))
+		if len(f) < 3 {
+			return -1
+		}
+		content = f[2]
+	} else {
+		var m map[string]any
+		if json.Unmarshal([]byte(line), &m) != nil {
+			return -1
+		}
+		content, _ = m[contentKey].(string)
+	}
+	var id int
+	if len(content) < 5 || content[0] != 'r' || content[4] != ':' {
+		return -1
+	}
+	if _, err := fmt.Sscanf(content[1:4], "%03d", &id); err != nil {
+		return -1
+	}
+	if content != verifContent(id, len(content)-5) || !verifEncodes(enc, line, content) {
+		return -1
+	}
+	return id
+}
+
+var verifEnc string
 
 type verifFile struct {
 	Name string   `json:"name"`
@@ -134,6 +195,7 @@ type verifDel struct {
 type verifLog struct {
 	R   bool      `json:"r,omitempty"`
 	W   *int      `json:"w,omitempty"`
+	S   string    `json:"s,omitempty"` // front-end stream: the clock string this write saw
 	Rot bool      `json:"rot,omitempty"`
 	D   *verifDel `json:"d,omitempty"`
 }
@@ -323,7 +385,8 @@ func verifReadFile(path string) verifFile {
 			}
 			id, ok := verifLines[string(data[:j])]
 			if !ok {
-				id = -1
+				// not one of the slices handed over: still a record if it is a complete, well-formed line
+				id = verifIdentify(verifEnc, string(data[:j]))
 			}
 			vf.Runs = append(vf.Runs, [2]int{id, j})
 			data = data[j:]
@@ -370,6 +433,7 @@ func verifRunCase(c verifCase) any {
 	verifLines = nil
 	if c.Front != nil {
 		verifLines = map[string]int{}
+		verifEnc = c.Front.Enc
 		if c.Front.Enc == "plain" {
 			atomic.StoreUint32(&encoding, plainEncodingType)
 		} else {
@@ -551,11 +615,20 @@ func verifRunCase(c verifCase) any {
 
 	var tap *verifTap
 	var fw Writer
+	public := false
 	if c.Front != nil {
 		tap = &verifTap{l: l}
-		if c.Front.Wire == "new" {
+		switch c.Front.Wire {
+		case "new":
 			fw = NewWriter(tap)
-		} else {
+		case "public":
+			// as setupWithFiles does: the package-level functions log through the global writer
+			fw = &concreteWriter{infoLog: tap, errorLog: tap, severeLog: tap, slowLog: tap, statLog: tap, stackLog: tap}
+			public = true
+			atomic.StoreUint32(&disableLog, 0)
+			writer.Store(fw)
+			defer Disable()
+		default:
 			fw = &concreteWriter{infoLog: tap, errorLog: tap, severeLog: tap, slowLog: tap, statLog: tap, stackLog: tap}
 		}
 	}
@@ -564,24 +637,50 @@ func verifRunCase(c verifCase) any {
 		ok = len(raw) == 3 && json.Unmarshal(raw[0], &id) == nil && json.Unmarshal(raw[1], &n) == nil && json.Unmarshal(raw[2], &stamp) == nil
 		return
 	}
+	emit := func(fn, content string) {
+		if !public {
+			fw.Info(content)
+			return
+		}
+		switch fn {
+		case "infof":
+			Infof("%s", content)
+		case "error":
+			Error(content)
+		case "errorf":
+			Errorf("%s", content)
+		case "slow":
+			Slow(content)
+		case "stat":
+			Stat(content)
+		default:
+			Info(content)
+		}
+	}
+	harvested := 0
+	// harvest registers the slices handed to RotateLogger.Write since the last call; returns how many
+	harvest := func() int {
+		tap.mu.Lock()
+		defer tap.mu.Unlock()
+		fresh := tap.accepted[harvested:]
+		for _, line := range fresh {
+			id := verifIdentify(c.Front.Enc, line)
+			good := 0
+			if id >= 0 {
+				good = 1
+				verifLines[line] = id
+			}
+			accepted = append(accepted, [3]int{id, len(line), good})
+		}
+		harvested = len(tap.accepted)
+		return len(fresh)
+	}
 	submit := func(id, n int) error {
 		if tap == nil {
 			_, err := l.Write(bytes.Repeat([]byte{byte(33 + id)}, n))
 			return err
 		}
-		content := verifContent(id, n)
-		before := len(tap.accepted)
-		fw.Info(content)
-		if len(tap.accepted) != before+1 {
-			return fmt.Errorf("front-end handed over %d writes for one record", len(tap.accepted)-before)
-		}
-		line := tap.accepted[before]
-		good := 0
-		if verifEncodes(c.Front.Enc, line, content) {
-			good = 1
-		}
-		verifLines[line] = id
-		accepted = append(accepted, [3]int{id, len(line), good})
+		emit("info", verifContent(id, n))
 		return nil
 	}
 	nw := 0
@@ -594,10 +693,36 @@ func verifRunCase(c verifCase) any {
 		settle()
 		w.scriptNow = stamp
 		k := nw
-		logs = append(logs, verifLog{W: &k})
+		lg := verifLog{W: &k}
+		if tap != nil {
+			lg.S = stamp
+		}
+		logs = append(logs, lg)
 		nw++
 		w.release <- struct{}{}
 		return true
+	}
+	extra := 0
+	// closeLogger lets ShallRotate calls nobody expects pass (a record processed in several pieces)
+	closeLogger := func() error {
+		stop, done := make(chan struct{}), make(chan struct{})
+		ww := w
+		go func() {
+			defer close(done)
+			for {
+				select {
+				case <-ww.entered:
+					extra++
+					ww.release <- struct{}{}
+				case <-stop:
+					return
+				}
+			}
+		}()
+		err := l.Close()
+		close(stop)
+		<-done
+		return err
 	}
 	for _, e := range c.Events {
 		if e.D != nil {
@@ -608,7 +733,7 @@ func verifRunCase(c verifCase) any {
 			if len(e.R) != 3 {
 				return fail("bad restart event")
 			}
-			if l.Close() != nil {
+			if closeLogger() != nil {
 				errs = append(errs, "close-error")
 			}
 			settle()
@@ -627,29 +752,106 @@ func verifRunCase(c verifCase) any {
 			logs = append(logs, verifLog{R: true})
 			continue
 		}
-		burst := e.B
-		if e.W != nil {
-			burst = [][]json.RawMessage{e.W}
-		}
 		var stamps []string
-		// the worker is parked (idle, or at the gate of the first record) while the burst is submitted
-		for _, raw := range burst {
-			id, n, stamp, ok := parse(raw)
-			if !ok {
-				return fail("bad event")
+		expected, early := 0, 0
+		var submitErr error
+		// whileSubmitting runs f on its own goroutine; should the queue to the worker fill up meanwhile (more
+		// than bufferSize slices: records arriving in many pieces) the worker is let through one slice at a time
+		whileSubmitting := func(f func()) bool {
+			done := make(chan struct{})
+			go func() { f(); close(done) }()
+			for {
+				select {
+				case <-done:
+					return true
+				case <-time.After(200 * time.Microsecond):
+					if len(l.channel) < cap(l.channel) {
+						continue
+					}
+					st := w.scriptNow
+					if len(stamps) > 0 {
+						st = stamps[0]
+					}
+					if !pass(st) {
+						return false
+					}
+					early++
+				}
 			}
-			if err := submit(id, n); err != nil {
-				return fail("write: " + err.Error())
-			}
-			stamps = append(stamps, stamp)
 		}
-		for _, stamp := range stamps {
+		if e.C != nil {
+			// several goroutines log at once through the public functions; the writer goroutine is parked
+			var wg sync.WaitGroup
+			start := make(chan struct{})
+			for _, recs := range e.C.Gor {
+				recs := recs
+				expected += len(recs)
+				wg.Add(1)
+				go func() {
+					defer wg.Done()
+					<-start
+					for _, raw := range recs {
+						var id, n int
+						var fn string
+						if len(raw) == 3 && json.Unmarshal(raw[0], &id) == nil && json.Unmarshal(raw[1], &n) == nil && json.Unmarshal(raw[2], &fn) == nil {
+							emit(fn, verifContent(id, n))
+						}
+					}
+				}()
+			}
+			stamps = append(stamps, e.C.Stamps...)
+			if !whileSubmitting(func() { close(start); wg.Wait() }) {
+				return fail("worker did not take the record")
+			}
+		} else {
+			burst := e.B
+			if e.W != nil {
+				burst = [][]json.RawMessage{e.W}
+			}
+			type rec struct{ id, n int }
+			var recs []rec
+			for _, raw := range burst {
+				id, n, stamp, ok := parse(raw)
+				if !ok {
+					return fail("bad event")
+				}
+				recs = append(recs, rec{id, n})
+				stamps = append(stamps, stamp)
+			}
+			expected = len(recs)
+			// the worker is parked (idle, or at the gate of the first record) while the burst is submitted
+			if !whileSubmitting(func() {
+				for _, r := range recs {
+					if err := submit(r.id, r.n); err != nil {
+						submitErr = err
+						return
+					}
+				}
+			}) {
+				return fail("worker did not take the record")
+			}
+			if submitErr != nil {
+				return fail("write: " + submitErr.Error())
+			}
+			expected -= early
+		}
+		if tap != nil {
+			// one pass per slice that reached RotateLogger.Write (exactly one per record when all is well)
+			expected = harvest() - early
+		}
+		for i := 0; i < expected; i++ {
+			stamp := w.scriptNow
+			if i < len(stamps) {
+				stamp = stamps[i]
+			} else if len(stamps) > 0 {
+				stamp = stamps[len(stamps)-1]
+			}
 			if !pass(stamp) {
 				return fail("worker did not take the record")
 			}
 		}
 	}
-	closeErr := l.Close()
+	closeErr := closeLogger()
 	settle()
 	for len(pending) > 0 {
 		runDelete(c.EndB)
@@ -658,6 +860,9 @@ func verifRunCase(c verifCase) any {
 	final := []verifFile{}
 	for _, n := range verifNames(dir) {
 		final = append(final, verifReadFile(filepath.Join(dir, n)))
+	}
+	if extra > 0 {
+		errs = append(errs, fmt.Sprintf("extra-shallrotate=%d", extra))
 	}
 	res := map[string]any{"log": logs, "final": final, "rotations": rotations, "errs": errs}
 	if c.Front != nil {
